@@ -43,6 +43,7 @@ WidePairs(v) ==
   \* every abbreviation of the alphabet with a legal-looking value, every metric of the version with
   \* every value of the alphabet
   {<<a, SB["N"]>> : a \in AbvAlphabet} \cup {<<a, SB["X"]>> : a \in AbvAlphabet}
+  \cup {<<a, <<>>>> : a \in AbvAlphabet}
   \cup UNION {{<<SB[m], x>> : x \in ValAlphabet} : m \in MetricSet(v)}
 
 LegalPairs(v) == UNION {{<<SB[m], SB[x]>> : x \in Values(v, m)} : m \in MetricSet(v)}
